@@ -178,6 +178,8 @@ class _NP:
 
 def _dt(dtype):
     from . import runtime
+    if dtype in ("real", "int", "bool", "cplx"):
+        return dtype
     if dtype in (float, None, runtime.m_float, _np.float64):
         return "real"
     if dtype in (int, runtime.m_int, _np.int64):
